@@ -1719,6 +1719,14 @@ class Context:
     def _client_handle_encrypted_extensions(self, input_buf: Buffer) -> None:
         encrypted_extensions = pull_encrypted_extensions(input_buf)
 
+        if encrypted_extensions.alpn_protocol is not None and (
+            self._alpn_protocols is None
+            or encrypted_extensions.alpn_protocol not in self._alpn_protocols
+        ):
+            raise AlertIllegalParameter(
+                "EncryptedExtensions has an ALPN protocol we did not offer"
+            )
+
         self.alpn_negotiated = encrypted_extensions.alpn_protocol
         self.early_data_accepted = encrypted_extensions.early_data
         self.received_extensions = encrypted_extensions.other_extensions
